@@ -667,6 +667,28 @@ pub fn exec_c(sc: &ScenC, run_tag: u64, verbose: bool) -> Result<OutC, String> {
             changed = true;
         }
         bump(&mut stats, &format!("table_entry_called:{}", kind));
+        if let TopOp::Iter { progs, section } = op {
+            if *section != 3 {
+                for p in progs {
+                    for c in p {
+                        let n = match c {
+                            CbOp::Name => "name",
+                            CbOp::Type => "rr_type",
+                            CbOp::Class => "rr_class",
+                            CbOp::Ttl => "rr_ttl",
+                            CbOp::SetTtl(_) => "set_rr_ttl",
+                            CbOp::Ip => "rr_ip",
+                            CbOp::SetIp(_) => "set_rr_ip",
+                            CbOp::SetRawName(_) => "set_raw_name",
+                            CbOp::SetName { .. } => "set_name",
+                            CbOp::Delete => "delete_rr",
+                            CbOp::Stop => "callback_returns_stop",
+                        };
+                        bump(&mut stats, &format!("callback_op_scripted:{}", n));
+                    }
+                }
+            }
+        }
         let mut h = Fnv::new();
         h.write(&nlog);
         h.write(pn.packet());
